@@ -37,6 +37,8 @@ import time
 VERIF = os.path.dirname(os.path.dirname(os.path.abspath(__file__)))
 REPO = os.environ.get("VERIF_REPO", "/repo")
 BUILD = os.path.join(VERIF, "build")
+RUNSFX = "" if REPO == "/repo" else "_" + hashlib.md5(REPO.encode()).hexdigest()[:6]
+EVDIR = os.environ.get("VERIF_EVIDENCE_DIR") or (os.path.join(VERIF, "evidence") if REPO == "/repo" else os.path.join(BUILD, "evidence" + RUNSFX))
 
 ALLOWED_AXIOMS = {
     # axioms declared by the Coq standard library itself; named in DESIGN.md section 4
@@ -188,7 +190,7 @@ def build_model(pid):
 
 
 def run_model(pid, cases, impl_lines=None, variant=None, tag="m"):
-    wd = os.path.join(BUILD, "run", pid)
+    wd = os.path.join(BUILD, "run", pid + RUNSFX)
     os.makedirs(wd, exist_ok=True)
     cf = os.path.join(wd, "%s_cases.txt" % tag)
     with open(cf, "w") as f:
@@ -220,7 +222,7 @@ class HarnessFailure(Exception):
 def run_impl(mod, cases, tag="i"):
     """Run the Go harness(es) from REPO's working tree; returns one output line per case."""
     pid = mod.ID
-    wd = os.path.join(BUILD, "run", pid)
+    wd = os.path.join(BUILD, "run", pid + RUNSFX)
     os.makedirs(wd, exist_ok=True)
     hs = mod.HARNESSES
     route = getattr(mod, "route", None)
@@ -286,7 +288,7 @@ def load_findings(pid):
 
 # ---------------------------------------------------------------- main flow
 def write_replay(pid, name, obj):
-    d = os.path.join(VERIF, "replay", pid)
+    d = os.path.join(VERIF, "replay", pid + RUNSFX)
     os.makedirs(d, exist_ok=True)
     path = os.path.join(d, name)
     json.dump(obj, open(path, "w"), indent=1)
@@ -475,8 +477,8 @@ def main(pid):
     ev = {"property_id": pid, "tier": tier, "seed": seed, "level": "proof", "coverage": cov,
           "assumptions": getattr(mod, "ASSUMPTIONS", []), "wall_s": round(time.time() - t0, 2),
           "violations": len(violations), "known_findings_reported": sorted(reported_known)}
-    os.makedirs(os.path.join(VERIF, "evidence"), exist_ok=True)
-    json.dump(ev, open(os.path.join(VERIF, "evidence", "%s.json" % pid), "w"), indent=1)
+    os.makedirs(EVDIR, exist_ok=True)
+    json.dump(ev, open(os.path.join(EVDIR, "%s.json" % pid), "w"), indent=1)
     for l in known_lines:
         print(l)
     print("%s tier=%s seed=%d proofs=%d/%d cases=%d mismatches=%d known=%d wall=%.1fs" %
